@@ -156,26 +156,26 @@ CHECKS = {
 
 # clauses added after the first catalogue (rule ids as in DESIGN.md §4); appended to the text of the claim
 LATER = {
- "C09": "Also: node.check runs the section and revision checks for modules and submodules alike (R09.13); empty steps of a schema node identifier are kept to be refused (R09.14); the section function and the per-cell cardinality test are followed into helpers (R09.5, R09.7). Round 7: every statement Tree.stmt returns has passed check() (R09.15). Rounds 8–10: the remembered revision date may live in a field of a small state object updated by one function (second reading of R09.6/R09.12).",
- "C01": "Also: strings become numbers through the floating-point reader alone (R01.9); substring() positions count characters (R01.8). Round 6: a leaf-list is compared member by member through the type-directed comparison (R01.10).",
- "C02": "Also: every question put to the data tree is about a path taken off the path stack (R02.8); a predicate key is recorded whatever the two strings are (R02.9). Round 6: key predicate vs leaf-list test is decided by the left operand alone (R02.10); numbers are written with the float formatter only (R02.11); key attachment and sorting in PredicatesEnd are read on SSA (R02.4). Round 7: no pool hands a path stack to the next run (R02.12); the keys of a step are attached once, after its whole predicate set — a rule on the grammar (R02.13).",
+ "C09": "Also: node.check runs the section and revision checks for modules and submodules alike (R09.13); empty steps of a schema node identifier are kept to be refused (R09.14); the section function and the per-cell cardinality test are followed into helpers (R09.5, R09.7). Round 7: every statement Tree.stmt returns has passed check() (R09.15). Rounds 8–10: the remembered revision date may live in a field of a small state object updated by one function (second reading of R09.6/R09.12). Seed round 8: the column rule of C10 also here (R09.16); a hand-written digit reader tests both bounds (R09.17).",
+ "C01": "Also: strings become numbers through the floating-point reader alone (R01.9); substring() positions count characters (R01.8). Round 6: a leaf-list is compared member by member through the type-directed comparison (R01.10). Seed round 8: no comparison instruction is computed from another (R01.12); no rounding by floor(x + 0.5) (R01.11, after the substring() repair).",
+ "C02": "Also: every question put to the data tree is about a path taken off the path stack (R02.8); a predicate key is recorded whatever the two strings are (R02.9). Round 6: key predicate vs leaf-list test is decided by the left operand alone (R02.10); numbers are written with the float formatter only (R02.11); key attachment and sorting in PredicatesEnd are read on SSA (R02.4). Round 7: no pool hands a path stack to the next run (R02.12); the keys of a step are attached once, after its whole predicate set — a rule on the grammar (R02.13). Seed round 8: PushElem adds its element on every path (R02.14).",
  "C03": "Also: the characters a number token collects include no first letter of an operator name (R03.10). Round 7: the expression lexer adds no state to the common lexer (R03.11).",
  "C04": "Also: the number lexer uses no integer parser (R04.23); the oracle grammar is transcribed from XPath 1.0 only (the '()' production the code once had was a defect, repaired). Round 6: startsWithXML compares the first three characters (R04.24); after '.', a number is read for each of the ten digits (R04.25). Round 7: function-class tokens only before '(' (R04.26); ConstructToken reads on or reports on every way out (R04.27). Rounds 8–10: every exit with the ERR token is preceded, on every path, by recording a lexer error — a must-pass-through on the control-flow graph that reads helper exits (R04.6); a local part is built only from a character that passed IsNameStartChar, across helper boundaries (R04.17).",
- "C05": "Also: every format string in the xpath packages is a constant or the function's own format parameter (R05.13); execError never returns (R05.10, on SSA); an error arm reaches its sink with no further test (R05.3). Round 6: no loop of the evaluator is counted in floating point (R05.14). Round 7: LRefEquals goes on for exactly one key name (R05.15). Rounds 8–10: the rune loops also accept a rune kept in a field of a state object and read by its method (R05.7).",
- "C06": "Also: assigning a captured variable's own cell is not counted as a write through shared state (effects engine). Round 6: R06.1 (machines frozen) had been passing vacuously and was repaired; no package-level channel, pool or synchronised map (R06.9).",
- "C07": "Also: the word state makes progress (R07.11); line and column agree on the line terminator (R07.12). Round 6: no statement kind falls through the argument dispatch (R07.13). Round 7: no slice bound from a flag left by an earlier line (R07.14); the lexer scans the text it was handed (R07.15).",
- "C08": "Also: '+' outside quotes is always the concatenation token (R08.14); when indentation stripping runs, the last token read is the piece's closing quote (R08.15); quoting dispatch and piece+rest are decided on SSA values under each closing-quote model (R08.3, R08.4). Round 6: comment scanners discard what they scanned on every path (R08.16); the argument interner's key is a pair (R08.17). Round 7: a backslash takes the next rune with it (R08.18); the terminator set of an unquoted word is exact, CR included (R08.19).",
- "C10": "Also: nothing computed from one line is carried into the next in the per-line decoding loop (R10.11); the argument interner's key keeps statement kind and text apart (R10.12). Round 6: the closing quote is the last token when indentation is stripped (R10.13); comment scanners discard what they scanned (R10.14). Round 7: positions are offsets into the text handed in (R10.15). Rounds 8–10: the column printed is evaluated as a linear form of the LastIndex result per range of that result and must be pos − index − 1 for every index from −1 up (R10.5).",
+ "C05": "Also: every format string in the xpath packages is a constant or the function's own format parameter (R05.13); execError never returns (R05.10, on SSA); an error arm reaches its sink with no further test (R05.3). Round 6: no loop of the evaluator is counted in floating point (R05.14). Round 7: LRefEquals goes on for exactly one key name (R05.15). Rounds 8–10: the rune loops also accept a rune kept in a field of a state object and read by its method (R05.7). Seed round 8: the compile cone follows interface methods a lexer inherits by embedding; a checked type assertion is not used without its flag (R05.16).",
+ "C06": "Also: assigning a captured variable's own cell is not counted as a write through shared state (effects engine). Round 6: R06.1 (machines frozen) had been passing vacuously and was repaired; no package-level channel, pool or synchronised map (R06.9). Seed round 8: no package-level array or slice serves as a scratch buffer (R06.10).",
+ "C07": "Also: the word state makes progress (R07.11); line and column agree on the line terminator (R07.12). Round 6: no statement kind falls through the argument dispatch (R07.13). Round 7: no slice bound from a flag left by an earlier line (R07.14); the lexer scans the text it was handed (R07.15). Seed round 8: Parse defers only recover (R07.16).",
+ "C08": "Also: '+' outside quotes is always the concatenation token (R08.14); when indentation stripping runs, the last token read is the piece's closing quote (R08.15); quoting dispatch and piece+rest are decided on SSA values under each closing-quote model (R08.3, R08.4). Round 6: comment scanners discard what they scanned on every path (R08.16); the argument interner's key is a pair (R08.17). Round 7: a backslash takes the next rune with it (R08.18); the terminator set of an unquoted word is exact, CR included (R08.19). Seed round 8: the string interner is keyed by the whole string (R08.20); lexSep moves by next() under isSep (R08.21); escape substitution is used by trimWhitespace alone (R08.22).",
+ "C10": "Also: nothing computed from one line is carried into the next in the per-line decoding loop (R10.11); the argument interner's key keeps statement kind and text apart (R10.12). Round 6: the closing quote is the last token when indentation is stripped (R10.13); comment scanners discard what they scanned (R10.14). Round 7: positions are offsets into the text handed in (R10.15). Rounds 8–10: the column printed is evaluated as a linear form of the LastIndex result per range of that result and must be pos − index − 1 for every index from −1 up (R10.5). Seed round 8: R10.16–R10.19 (interner identity, separator set, no validator rewrites its argument, escapes only when double-quoted).",
  "C11": "Also: node.useTree has one reader (R11.12); objects carried through a reviewed map iteration are part of the review (R11.1); order-sensitive phases are located also when handed to a driver as a function value (R11.2). Round 6: the Compiler's mutable fields are the reviewed ones (R11.13); every derived identity is listed (R11.14). Round 7: Compiler.recover re-raises run-time errors only (R11.15).",
- "C12": "Also: the Compiler's mutable fields and their writers are a reviewed table (R12.10). Round 6: node.children is never shifted in place (R12.11); includes are merged before the import graph is sorted (R12.12); Clone is read on SSA (R12.2). Round 7: every if-feature of a node is evaluated (R12.13).",
- "C13": "Also: defaults are judged against every part of a multi-part range (R13.11); each part of a range/length argument is read on its own (R13.12). Round 6: a derived union may not list member types (R13.13). Round 7: a pattern is anchored as one group (R13.14); the default validated is the default reported (R13.15).",
- "C14": "Also: the reference-status checker is called on every node of an augment/refine path (R14.11); staleness of an inherited status is decided by control flow (R14.7). Round 6: the last feature source that knows a feature decides (R14.12); the status rule does not depend on how a typedef's name is spelt (R14.13). Round 7: deviate replace refuses a property the target lacks (R14.14). Rounds 8–10: the reference-status error is raised exactly for same module ∧ status(src) < status(dst) (R14.2), a feature is enabled iff its own setting ∧ every dependency (the loop-carried value, R14.4), and the three deviate edits hit the child they name (R14.6) — each read off path conditions on the SSA form, through helpers.",
- "C15": "Also: AddWhenChildren attaches every when statement it is given (R15.10); a module's own imports precede those of its submodules (R15.11). Round 6: no table of compiled expressions on the Compiler (R15.12); deviate add attaches every property (R15.13). Round 7: error locations use the defining tree (R15.14); a prefix reaches the prefix map as written (R15.15).",
- "C16": "Also: a value lies in a multi-part range iff some part holds it (R16.12); NewIdentityref stores the list as given (R16.13); every error constructor writes the path with pathutil.Pathstr (R16.14). Round 6: NewUnion keeps its members (R16.15); the decimal64 bounds table is exact for all 18 rows (R16.16); union.Validate leaves its scan only at a member that accepts (R16.17). Round 7: a derived string type keeps its base's patterns (R16.18).",
- "C17": "Also: child tables are built at three reviewed places with the reviewed kind tests, also through a shared builder (R17.8); leaf/leaf-list name the first token too many (R17.9). Round 6: union-typed values (R17.10); every Path of a rejection is written by pathutil.Pathstr (R17.11). Round 7: NewList keeps the key order (R17.12); identityref compares the node-relative name (R17.13).",
- "C18": "Also: checkMandatory enters a child only when isAChoice denies membership (R18.12); list cardinality is measured whatever the number of entries (R18.13). Round 6: a case is active through any member (R18.14); the unique-key scan is left only at the child looked for (R18.15); the cardinality table is evaluated on the function's exits under a model (R18.2, R18.5). Round 7: an active case is checked whatever else holds of its choice (R18.16); the unique key is the values, not a digest (R18.17). Rounds 8–10: a default is created, per default child, exactly when its name is absent from the explicit data and it is not under a choice or IsActiveDefault holds (one formula, R18.3/R18.8); leaf.HasDefault and leaf.Default are each ¬mandatory ∧ the type has a default (R18.3).",
- "C19": "Also: JSON integers are kept digit for digit (R19.13); the XML decoder stays strict (R19.14). Round 6: every decoded value is validated (R19.15); an identity's prefix is bound to its own namespace in XML (R19.16). Round 7: CreateDataNode stores its values as given (R19.17); no writer sorts (R19.18).",
- "C20": "Also: every combinator returns a function of its own on every path (R20.8); kind tests handed on as parameters are checked per caller (R20.5). Round 6: the compiler filters with the filter it was given, nil stays nil (R20.9). Round 7: IsOpd covers the three opd kinds (R20.10); BuildNode asks the node it built nothing (R20.11).",
+ "C12": "Also: the Compiler's mutable fields and their writers are a reviewed table (R12.10). Round 6: node.children is never shifted in place (R12.11); includes are merged before the import graph is sorted (R12.12); Clone is read on SSA (R12.2). Round 7: every if-feature of a node is evaluated (R12.13). Seed round 8: repeatable statements are added by applyChange on every path (R12.14); identity values are named relative to the configuration node (R12.15).",
+ "C13": "Also: defaults are judged against every part of a multi-part range (R13.11); each part of a range/length argument is read on its own (R13.12). Round 6: a derived union may not list member types (R13.13). Round 7: a pattern is anchored as one group (R13.14); the default validated is the default reported (R13.15). Seed round 8: IsTypeRestriction holds for exactly the kinds between its markers (R13.16); no range statement skips createRangeBdry (R13.17).",
+ "C14": "Also: the reference-status checker is called on every node of an augment/refine path (R14.11); staleness of an inherited status is decided by control flow (R14.7). Round 6: the last feature source that knows a feature decides (R14.12); the status rule does not depend on how a typedef's name is spelt (R14.13). Round 7: deviate replace refuses a property the target lacks (R14.14). Rounds 8–10: the reference-status error is raised exactly for same module ∧ status(src) < status(dst) (R14.2), a feature is enabled iff its own setting ∧ every dependency (the loop-carried value, R14.4), and the three deviate edits hit the child they name (R14.6) — each read off path conditions on the SSA form, through helpers. Seed round 8: no written status is returned before the comparison with the inherited one (R14.15).",
+ "C15": "Also: AddWhenChildren attaches every when statement it is given (R15.10); a module's own imports precede those of its submodules (R15.11). Round 6: no table of compiled expressions on the Compiler (R15.12); deviate add attaches every property (R15.13). Round 7: error locations use the defining tree (R15.14); a prefix reaches the prefix map as written (R15.15). Seed round 8: every must written in a refine is attached (R15.16).",
+ "C16": "Also: a value lies in a multi-part range iff some part holds it (R16.12); NewIdentityref stores the list as given (R16.13); every error constructor writes the path with pathutil.Pathstr (R16.14). Round 6: NewUnion keeps its members (R16.15); the decimal64 bounds table is exact for all 18 rows (R16.16); union.Validate leaves its scan only at a member that accepts (R16.17). Round 7: a derived string type keeps its base's patterns (R16.18). Seed round 8: R16.19 (identity names relative to the using module), R16.20 (block-escape table against the Unicode block table).",
+ "C17": "Also: child tables are built at three reviewed places with the reviewed kind tests, also through a shared builder (R17.8); leaf/leaf-list name the first token too many (R17.9). Round 6: union-typed values (R17.10); every Path of a rejection is written by pathutil.Pathstr (R17.11). Round 7: NewList keeps the key order (R17.12); identityref compares the node-relative name (R17.13). Seed round 8: the decimal64 lexical check is unconditional (R17.14); the range loop is left early only on acceptance (R17.15).",
+ "C18": "Also: checkMandatory enters a child only when isAChoice denies membership (R18.12); list cardinality is measured whatever the number of entries (R18.13). Round 6: a case is active through any member (R18.14); the unique-key scan is left only at the child looked for (R18.15); the cardinality table is evaluated on the function's exits under a model (R18.2, R18.5). Round 7: an active case is checked whatever else holds of its choice (R18.16); the unique key is the values, not a digest (R18.17). Rounds 8–10: a default is created, per default child, exactly when its name is absent from the explicit data and it is not under a choice or IsActiveDefault holds (one formula, R18.3/R18.8); leaf.HasDefault and leaf.Default are each ¬mandatory ∧ the type has a default (R18.3). Seed round 8: NewModelSet registers every top-level choice (R18.18).",
+ "C19": "Also: JSON integers are kept digit for digit (R19.13); the XML decoder stays strict (R19.14). Round 6: every decoded value is validated (R19.15); an identity's prefix is bound to its own namespace in XML (R19.16). Round 7: CreateDataNode stores its values as given (R19.17); no writer sorts (R19.18). Seed round 8: YangDataChildren returns the stored slice (R19.19); the XML writer opens an element for every child of a kind (R19.20).",
+ "C20": "Also: every combinator returns a function of its own on every path (R20.8); kind tests handed on as parameters are checked per caller (R20.5). Round 6: the compiler filters with the filter it was given, nil stays nil (R20.9). Round 7: IsOpd covers the three opd kinds (R20.10); BuildNode asks the node it built nothing (R20.11). Seed round 8: a choice is registered whatever is left inside it (R20.12).",
 }
 
 NOT_YET = "check under construction in this round (design in DESIGN.md §4); not claimed until armed"
